@@ -69,6 +69,7 @@ def execute(scn, keep_log=False, hook=None):
     t0 = sim.now
     sim.run_for(0.02)
     fillc = [scn['seed'] & 0xFFF]
+    states = set()
 
     def fresh(n):
         fillc[0] += 1
@@ -77,6 +78,7 @@ def execute(scn, keep_log=False, hook=None):
     def quiet(limit_s):
         for _ in range(int(limit_s / 0.1) + 1):
             sim.run_for(0.1)
+            states.add(common.abstract_state(w))
             if not common.busy(w) and not any(tag == 'peer' for (_t, _s, _f, tag) in sim.heap):
                 return True
         return False
@@ -243,7 +245,7 @@ def execute(scn, keep_log=False, hook=None):
                 stats['final_batches_ok'] = 1
     stats['fault_drop'] = bus.fired.get('drop', 0)
     res = {'violations': viol[:4], 'stats': dict(stats, frames=len(bus.frames)), 'nontrivial': stats['failed_outcomes_fired'] > 0,
-           'digest': sim.digest(), 'sim_s': (sim.now - t0) / 1e9,
+           'digest': sim.digest(), 'sim_s': (sim.now - t0) / 1e9, 'states': states,
            'summary': '%s %d steps (%s), %d frames' % (st.cfg['dll'], len(scn['steps']), ','.join(x.get('outcome', '?') for x in scn['steps'][:10]), len(bus.frames))}
     if keep_log:
         res['log'] = sim.logbuf
